@@ -716,6 +716,187 @@ theorem C14_full_fails : ¬ C14_Full := by
   rw [h1, h2] at this
   cases this
 
+/-! ### outside the Canon domain: exactly what the code evaluates (KF-C14-a as a theorem) -/
+
+theorem compileStep_shape (s : Step) (h1 : s.isUp = false) (h2 : s.isHere = false) :
+    (∃ d, compileStep s = .name d) ∨ (∃ x y z, compileStep s = .slice x y z) := by
+  cases s with
+  | up => simp [Step.isUp] at h1
+  | here => simp [Step.isHere] at h2
+  | name n => exact Or.inl ⟨_, rfl⟩
+  | negidx n => right; simp only [compileStep]; split <;> exact ⟨_, _, _, rfl⟩
+  | slice a b c =>
+    right
+    match a, b, c with
+    | none, none, none => exact ⟨_, _, _, rfl⟩
+    | none, none, some none => exact ⟨_, _, _, rfl⟩
+    | none, none, some (some v) => exact ⟨_, _, _, rfl⟩
+    | some _, none, none => exact ⟨_, _, _, rfl⟩
+    | none, some _, none => exact ⟨_, _, _, rfl⟩
+    | some _, some _, none => exact ⟨_, _, _, rfl⟩
+    | some _, none, some _ => exact ⟨_, _, _, rfl⟩
+    | none, some _, some _ => exact ⟨_, _, _, rfl⟩
+    | some _, some _, some _ => exact ⟨_, _, _, rfl⟩
+
+def topPart (top : Bool) : List Op := if top then [.top] else []
+
+/-- one iteration of `_canonicalize` on compiled steps = one `cancelStep` on the AST -/
+theorem canonStep_cancelStep (top : Bool) (acc : List Step) (s : Step)
+    (hacc : acc.all (fun a => !a.isHere) = true) :
+    canonStep true (acc.map compileStep ++ topPart top) (compileStep s)
+      = (cancelStep top acc s).map compileStep ++ topPart top ∧
+    (cancelStep top acc s).all (fun a => !a.isHere) = true := by
+  cases hs : s with
+  | here => exact ⟨by simp [compileStep, canonStep, cancelStep], by simpa [cancelStep] using hacc⟩
+  | up =>
+    simp only [compileStep, cancelStep]
+    cases acc with
+    | nil =>
+      cases top with
+      | true => exact ⟨by simp [canonStep, topPart], rfl⟩
+      | false => exact ⟨by simp [canonStep, topPart, compileStep], rfl⟩
+    | cons a rest =>
+      simp only [List.all_cons, Bool.and_eq_true, Bool.not_eq_true'] at hacc
+      by_cases hup : a.isUp = true
+      · have ha : a = .up := by cases a <;> simp [Step.isUp] at hup; rfl
+        subst ha
+        refine ⟨by simp [canonStep, compileStep], ?_⟩
+        simp only [List.all_cons, Bool.and_eq_true, Bool.not_eq_true']
+        exact ⟨rfl, rfl, by simpa using hacc.2⟩
+      · have hup' : a.isUp = false := by simpa using hup
+        have hne : ∀ (h : a = .up), False := by intro h; subst h; simp [Step.isUp] at hup'
+        rcases compileStep_shape a hup' hacc.1 with ⟨d, hd⟩ | ⟨x, y, z, hd⟩
+        · constructor
+          · cases a with
+            | up => exact absurd rfl hne
+            | _ => simp [canonStep, hd, cancelStep] <;> simp_all
+          · cases a with
+            | up => exact absurd rfl hne
+            | _ => simpa [cancelStep] using hacc.2
+        · constructor
+          · cases a with
+            | up => exact absurd rfl hne
+            | _ => simp [canonStep, hd, cancelStep] <;> simp_all
+          · cases a with
+            | up => exact absurd rfl hne
+            | _ => simpa [cancelStep] using hacc.2
+  | name n =>
+    exact ⟨by simp [compileStep, canonStep, cancelStep], by simpa [cancelStep, Step.isHere] using hacc⟩
+  | negidx n =>
+    have h1 : ((compileStep (.negidx n)) == Op.here) = false := by
+      simp only [compileStep]; split <;> rfl
+    have h2 : ((compileStep (.negidx n)) != Op.up) = true := by
+      simp only [compileStep]; split <;> rfl
+    exact ⟨by simp [canonStep, cancelStep, h1, h2], by simpa [cancelStep, Step.isHere] using hacc⟩
+  | slice a b c =>
+    have hu := compileStep_isUp (.slice a b c)
+    have hh := compileStep_isHere (.slice a b c)
+    have h1 : ((compileStep (.slice a b c)) == Op.here) = false := by
+      cases hc : compileStep (.slice a b c) <;> simp_all [Op.isHere, Step.isHere]
+    have h2 : ((compileStep (.slice a b c)) != Op.up) = true := by
+      cases hc : compileStep (.slice a b c) <;> simp_all [Op.isUp, Step.isUp]
+    exact ⟨by simp [canonStep, cancelStep, h1, h2], by simpa [cancelStep, Step.isHere] using hacc⟩
+
+theorem foldl_canon_cancel (top : Bool) : ∀ (steps acc : List Step),
+    acc.all (fun a => !a.isHere) = true →
+    (steps.map compileStep).foldl (canonStep true) (acc.map compileStep ++ topPart top)
+      = (steps.foldl (cancelStep top) acc).map compileStep ++ topPart top
+  | [], acc, _ => rfl
+  | s :: r, acc, hacc => by
+    obtain ⟨h1, h2⟩ := canonStep_cancelStep top acc s hacc
+    simp only [List.map_cons, List.foldl_cons, h1]
+    exact foldl_canon_cancel top r _ h2
+
+/-- `_canonicalize` of a compiled path of more than one op is, literally, the compiled
+    cancelled path -/
+theorem canonicalize_cancel (p : Spec.Path) (hlen : (compile p).length > 1) :
+    canonicalize (compile p) = compile (cancel p) := by
+  unfold canonicalize
+  have hm : decide ((compile p).length > 1) = true := by simpa using hlen
+  rw [hm]
+  unfold compile cancel
+  simp only
+  rw [List.foldl_append]
+  have h0 : (if p.top = true then [Op.top] else []).foldl (canonStep true) []
+      = ([] : List Step).map compileStep ++ topPart p.top := by
+    cases p.top <;> simp [canonStep, topPart]
+  rw [h0, foldl_canon_cancel p.top p.steps [] rfl]
+  cases p.top <;> simp [topPart]
+
+/-- **what the code evaluates, for every well-formed path**: the documented reading of the path
+    with every `X/..` pair and every `.` deleted.  On the Canon domain this is the reading of the
+    path itself (`eval_denotes`); outside it is KF-C14-a. -/
+theorem denOps_canonicalize (root : Node) (strict : Bool) (p : Spec.Path) (el : Pos) :
+    denOps root strict (canonicalize (compile p)) el = denOps root strict (compile (cancel p)) el := by
+  by_cases hlen : (compile p).length > 1
+  · rw [canonicalize_cancel p hlen]
+  · rw [canonicalize_short _ (by omega)]
+    -- at most one op: `/`, nothing, or a single relative step
+    cases hp : p with | mk top steps =>
+    subst hp
+    cases top with
+    | true =>
+      cases steps with
+      | nil => rfl
+      | cons s r => simp [compile] at hlen
+    | false =>
+      cases steps with
+      | nil => rfl
+      | cons s r =>
+        cases r with
+        | cons _ _ => simp [compile] at hlen
+        | nil =>
+          cases s with
+          | here => simp [compile, cancel, cancelStep, compileStep, denOps]
+          | up => simp [compile, cancel, cancelStep]
+          | name n => simp [compile, cancel, cancelStep]
+          | negidx n => simp [compile, cancel, cancelStep]
+          | slice a b c => simp [compile, cancel, cancelStep]
+
+theorem cancelStep_wf (top : Bool) (acc : List Step) (s : Step) (h1 : acc.all Step.wf = true) (h2 : s.wf = true) :
+    (cancelStep top acc s).all Step.wf = true := by
+  cases s with
+  | here => exact h1
+  | up =>
+    simp only [cancelStep]
+    cases acc with
+    | nil => cases top <;> rfl
+    | cons a rest =>
+      simp only [List.all_cons, Bool.and_eq_true] at h1
+      cases a <;> simp_all [Step.wf]
+  | name n => simpa [cancelStep, Step.wf] using h1
+  | negidx n => simpa [cancelStep, Step.wf] using h1
+  | slice a b c => simp only [cancelStep, List.all_cons, Bool.and_eq_true]; exact ⟨h2, h1⟩
+
+theorem cancel_wf (p : Spec.Path) (h : p.steps.all Step.wf = true) : (cancel p).steps.all Step.wf = true := by
+  unfold cancel
+  simp only [List.all_reverse]
+  have : ∀ (steps acc : List Step), acc.all Step.wf = true → steps.all Step.wf = true →
+      (steps.foldl (cancelStep p.top) acc).all Step.wf = true := by
+    intro steps
+    induction steps with
+    | nil => intro acc h1 _; exact h1
+    | cons s r ih =>
+      intro acc h1 h2
+      simp only [List.all_cons, Bool.and_eq_true] at h2
+      exact ih _ (cancelStep_wf p.top acc s h1 h2.1) h2.2
+  exact this p.steps [] rfl h
+
+/-- **C14 for every well-formed path, with the code's actual reading**: the evaluator on the
+    canonicalised compiled path = spec B's denotation of the cancelled path -/
+theorem eval_cancel_denotes (root : Node) (strict : Bool) (p : Spec.Path)
+    (hwf : p.steps.all Step.wf = true) (el : Pos) :
+    evalOps root strict (canonicalize (compile p)) el = denote (cancel p) root el strict := by
+  have hz : NoZero (compile p) = true := by
+    unfold compile NoZero
+    rw [List.all_append]
+    have := compile_noZero p.steps hwf
+    unfold NoZero at this
+    rw [this]
+    cases p.top <;> rfl
+  rw [evalOps_denotes _ _ _ _ (canonicalize_noZero _ hz), denOps_canonicalize,
+    denOps_compile _ _ _ (cancel_wf p hwf)]
+
 /-! ### tokenizer ∘ printer -/
 
 /-- **tokenizer ∘ printer, whole concrete syntax**: every well-formed concrete path — leading and
@@ -763,6 +944,48 @@ theorem find_print_denotes (root : Node) (start : Pos) (p : CPath) (single stric
     · rw [denOps_compile _ _ _ hwf']
   simp only [hden, findResOf, findSpec]
   cases denote p.abstract root start strict with
+  | error e => cases single <;> rfl
+  | ok res => cases single <;> rfl
+
+theorem canon_of_noDots : ∀ (steps : List Step) (seen : Bool),
+    steps.any (fun s => s.isUp || s.isHere) = false → canonFrom seen steps = true
+  | [], _, _ => rfl
+  | s :: r, seen, h => by
+    simp only [List.any_cons, Bool.or_eq_false_iff] at h
+    cases s with
+    | up => simp [Step.isUp] at h
+    | here => simp [Step.isHere] at h
+    | name n => simp only [canonFrom]; exact canon_of_noDots r true h.2
+    | negidx n => simp only [canonFrom]; exact canon_of_noDots r true h.2
+    | slice a b c => simp only [canonFrom]; exact canon_of_noDots r true h.2
+
+/-- **end to end, every well-formed path** (no Canon restriction): `find` on the printed path =
+    spec B's reading of the *cancelled* AST — the exact content of KF-C14-a -/
+theorem find_print_cancel (root : Node) (start : Pos) (p : CPath) (single strict : Bool)
+    (hwf : p.wf = true) (hfit : ∀ c ∈ p.steps, StepFits c.step) :
+    find root start (print p) single strict = findSpec (cancel p.abstract) root start single strict := by
+  have hwf' : p.abstract.steps.all Step.wf = true := by
+    simp only [CPath.abstract, List.all_map]
+    simp only [CPath.wf, List.all_eq_true] at hwf ⊢
+    intro c hc'
+    have := hwf c hc'
+    simp only [CStep.wf, Bool.and_eq_true] at this
+    exact this.1
+  rw [find_denotes, tokenize_print p hwf hfit]
+  have hden : denOps root strict
+      (if p.steps.any (fun c => c.step.isUp || c.step.isHere) then canonicalize (compile p.abstract)
+        else compile p.abstract) start = denote (cancel p.abstract) root start strict := by
+    split
+    · rw [denOps_canonicalize, denOps_compile _ _ _ (cancel_wf _ hwf')]
+    · next hno =>
+      have hno' : p.abstract.steps.any (fun s => s.isUp || s.isHere) = false := by
+        simp only [CPath.abstract, List.any_map]
+        simpa [Function.comp_def] using hno
+      have hc : Canon p.abstract = true := canon_of_noDots _ false hno'
+      rw [← canonicalize_sound root strict p.abstract hc, denOps_canonicalize,
+        denOps_compile _ _ _ (cancel_wf _ hwf')]
+  simp only [hden, findResOf, findSpec]
+  cases denote (cancel p.abstract) root start strict with
   | error e => cases single <;> rfl
   | ok res => cases single <;> rfl
 
